@@ -1,9 +1,141 @@
-(* C12 - RwLock (stub while the proofs are being written) *)
+(* C12 - may::sync::RwLock: writers are exclusive, also when the lock is poisoned and guards are taken out
+   of PoisonError; every guard releases exactly what it acquired, so that the lock is free again once all
+   guards are dropped; blocked readers and writers are not stranded.
+
+   Property theorems only: each is closed by `exact` of a lemma proved under Sync/RwLock*.v and followed by
+   Print Assumptions.  Model: Sync/RwLockModel.v (the code as it is now: after F4, F5, F11, F13).
+   All theorems are for every reachable state `s` of the model started clean (p = false) or poisoned
+   (p = true), any number of actors, any schedule, under the one premise `ovf s = false`: the 64-bit
+   reader count never wrapped, i.e. there were never 2^64 read guards at the same time. *)
 From Coq Require Import List ZArith.
 Import ListNotations.
-Require Import MayV.Sync.RwLockModel MayV.Sync.RwLockAccept.
+Require Import MayV.Sync.RwLockModel MayV.Sync.RwLockInv MayV.Sync.RwLockThm MayV.Sync.RwLockAccept MayV.Sync.RwLockExamples.
+Require MayV.Sync.RwLockPreFix.
 
+(* (i) At most one actor owns write access (write guard under construction, held, or being dropped by a
+   panicking holder - Ok(guard) and Poisoned(guard) alike), in clean and in poisoned state. *)
+Theorem C12_i_writers_exclusive :
+  forall p s, Reach p s -> ovf s = false ->
+  forall a a', wown (apc (A s a)) = true -> wown (apc (A s a')) = true -> a = a'.
+Proof. exact writers_exclusive. Qed.
+Print Assumptions C12_i_writers_exclusive.
+
+(* (i) Never a writer together with a counted reader (read guard built and not yet uncounted). *)
+Theorem C12_i_writer_excludes_readers :
+  forall p s, Reach p s -> ovf s = false ->
+  forall a a', wown (apc (A s a)) = true -> rguard (apc (A s a')) = true -> False.
+Proof. exact writer_excludes_readers. Qed.
+Print Assumptions C12_i_writer_excludes_readers.
+
+(* (ii) The reader count is exactly the number of actors that own a read guard. *)
+Theorem C12_ii_reader_count_exact :
+  forall p s, Reach p s -> ovf s = false ->
+  r s = Z.of_nat (length (rdl s)) /\ NoDup (rdl s) /\ forall a, In a (rdl s) <-> rguard (apc (A s a)) = true.
+Proof. exact reader_count_exact. Qed.
+Print Assumptions C12_ii_reader_count_exact.
+
+(* (ii) No read guard drop underflows the count: `*r -= 1` runs at r >= 1 (no wrap, no debug panic). *)
+Theorem C12_ii_no_underflow :
+  forall p s, Reach p s -> ovf s = false ->
+  forall a, apc (A s a) = DR0 -> (1 <= r s)%Z /\ Z.modulo (r s - 1) Wd = (r s - 1)%Z.
+Proof. exact no_underflow. Qed.
+Print Assumptions C12_ii_no_underflow.
+
+(* (ii) The global counter counts exactly the registered entries (owner / reader group / waiters). *)
+Theorem C12_ii_cnt_counts_entries :
+  forall p s, Reach p s -> ovf s = false -> cnt s = length (ent s) /\ NoDup (ent s).
+Proof. exact cnt_counts_entries. Qed.
+Print Assumptions C12_ii_cnt_counts_entries.
+
+(* (ii) When every call has returned and every guard has been dropped, everything acquired has been
+   released: cnt = 0, readers = 0, rlock free, no waiter registered. *)
+Theorem C12_ii_all_dropped_lock_free :
+  forall p s, Reach p s -> ovf s = false ->
+  (forall a, at_rest (apc (A s a)) = true) ->
+  cnt s = 0 /\ r s = 0%Z /\ rl s = None /\ q s = [] /\ holder s = HNone /\ rdl s = [] /\ ent s = [].
+Proof. exact all_dropped_lock_free. Qed.
+Print Assumptions C12_ii_all_dropped_lock_free.
+
+(* (ii) ... so a try_write then succeeds (load 0, CAS ok, guard). *)
+Theorem C12_ii_try_write_succeeds_when_all_dropped :
+  forall p s, Reach p s -> ovf s = false ->
+  forall a, (forall x, at_rest (apc (A s x)) = true) -> apc (A s a) = Idle ->
+  exists s', run s [Call a OTryWrite; Step a; Step a; Step a] = Some s' /\ apc (A s' a) = HoldW.
+Proof. exact try_write_succeeds_when_all_dropped. Qed.
+Print Assumptions C12_ii_try_write_succeeds_when_all_dropped.
+
+(* (iii) No stranded reader / writer, quiescence form, PARTIAL: if no actor can take a step, no guard is
+   outstanding and nobody is stuck popping an empty waiter queue, then nobody is parked in lock(), nobody
+   waits for rlock, no guard drop is stuck: every actor is at rest (and by (ii) the lock is free).
+   Missing for the full statement: unreachability of the empty-queue pop (`expect("got null blocker!")`);
+   fairness of the scheduler (every enabled step is eventually taken) is assumed, as in C01. *)
+Theorem C12_iii_no_stranded_partial :
+  forall p s, Reach p s -> ovf s = false ->
+  Stable s -> (forall a, apc (A s a) <> HoldW) -> (forall a, apc (A s a) <> HoldR) -> (forall a, apc (A s a) <> H1) ->
+  forall a, at_rest (apc (A s a)) = true.
+Proof. exact no_stranded_partial. Qed.
+Print Assumptions C12_iii_no_stranded_partial.
+
+(* Tie: every state along a trace of the real RwLock that the acceptor accepts is reachable, hence
+   satisfies the theorems above. *)
 Theorem C12_accepted_traces_are_model_runs :
   forall p tr t t', Reach p (ms t) -> accept_all t tr = Some t' -> Reach p (ms t').
 Proof. exact accept_all_reach. Qed.
 Print Assumptions C12_accepted_traces_are_model_runs.
+
+(* ---- documented witnesses about the code BEFORE the repairs (Sync/RwLockPreFix.v): the statements
+   above are refuted on the faithful models of the old code, so they are not vacuous ---- *)
+
+(* pre-F5: two write() callers both own a guard on a poisoned lock (9 actions) *)
+Theorem C12_prefix_writer_exclusion_refuted :
+  exists s, RwLockPreFix.Reach true s /\ RwLockPreFix.P s 1%nat = RwLockPreFix.HoldW /\ RwLockPreFix.P s 2%nat = RwLockPreFix.HoldW.
+Proof. exact RwLockPreFix.writer_exclusion_refuted. Qed.
+Print Assumptions C12_prefix_writer_exclusion_refuted.
+
+(* pre-F4: all guards dropped, every call returned, and cnt = 1, readers = 2^64 - 1 (10 actions) *)
+Theorem C12_prefix_guards_release_what_they_took_refuted :
+  exists s, RwLockPreFix.Reach true s /\ (forall a, RwLockPreFix.P s a = RwLockPreFix.Idle) /\
+            RwLockPreFix.cnt s = 1%Z /\ RwLockPreFix.r s = (RwLockPreFix.W - 1)%Z.
+Proof. exact RwLockPreFix.guards_release_what_they_took_refuted. Qed.
+Print Assumptions C12_prefix_guards_release_what_they_took_refuted.
+
+(* pre-F11: a cancelled coroutine leaves its read guard drop by the cancel panic; no guard is left and
+   the lock stays taken: cnt = 1, readers = 1 (13 actions) *)
+Theorem C12_prefix_cancelled_drop_leaks_the_lock_refuted :
+  exists s, RwLockPreFix.Reach false s /\ RwLockPreFix.P s 1%nat = RwLockPreFix.Cancelled /\
+            (forall a, a <> 1%nat -> RwLockPreFix.P s a = RwLockPreFix.Idle) /\
+            RwLockPreFix.cnt s = 1%Z /\ RwLockPreFix.r s = 1%Z /\ RwLockPreFix.rl s = None.
+Proof. exact RwLockPreFix.cancelled_drop_leaks_the_lock_refuted. Qed.
+Print Assumptions C12_prefix_cancelled_drop_leaks_the_lock_refuted.
+
+(* ---- non-vacuity: concrete reachable states that satisfy the hypotheses ---- *)
+
+(* a poisoned lock held by a writer that took its guard after the poisoning, a writer and a reader parked *)
+Example C12_ex_poisoned_writer_with_waiters :
+  exists s, Reach false s /\ ovf s = false /\ pois s = true /\
+            apc (A s 1) = Idle /\ apc (A s 2) = HoldW /\ apc (A s 3) = PK /\ apc (A s 4) = PK /\
+            cnt s = 3 /\ rl s = Some 4 /\ length (q s) = 2.
+Proof. exact ex_poisoned. Qed.
+
+(* two read guards on the poisoned lock (one from read() through a hand-off, one from try_read), a writer parked *)
+Example C12_ex_two_readers_one_parked_writer :
+  exists s, Reach false s /\ ovf s = false /\ pois s = true /\
+            apc (A s 4) = HoldR /\ apc (A s 5) = HoldR /\ apc (A s 6) = PK /\ r s = 2%Z /\ cnt s = 2 /\ holder s = HG.
+Proof. exact ex_readers. Qed.
+
+(* after panics, hand-offs, a cancelled waiter and all drops: everybody at rest (hypothesis of (ii)) *)
+Example C12_ex_all_at_rest_after_history :
+  exists s, Reach false s /\ ovf s = false /\ (forall a, at_rest (apc (A s a)) = true) /\
+            apc (A s 7) = Exit /\ apc (A s 6) = Idle /\ nextb s = 5.
+Proof. exact ex_rest. Qed.
+
+(* the hypotheses of (iii) are satisfiable *)
+Example C12_ex_stable_state :
+  exists s, Reach false s /\ ovf s = false /\ Stable s /\
+            (forall a, apc (A s a) <> HoldW) /\ (forall a, apc (A s a) <> HoldR) /\ (forall a, apc (A s a) <> H1).
+Proof. exact ex_rest_stable. Qed.
+
+(* a read guard drop in progress: hypothesis of C12_ii_no_underflow *)
+Example C12_ex_read_guard_drop_in_progress :
+  exists s, Reach false s /\ ovf s = false /\ apc (A s 4) = DR0 /\ r s = 2%Z.
+Proof. exact ex_dropping. Qed.
